@@ -1,5 +1,6 @@
 """C08 - simplification preserves meaning and never shrinks the domain."""
 from __future__ import annotations
+import os
 from fractions import Fraction
 from hypothesis import given, strategies as st
 from harness import strategies as S
@@ -11,6 +12,7 @@ from .common import *
 ID = "C08"
 RULE = ("Inputs: one template per rewrite rule (51 templates: each rule's left-hand side with generated sub-trees in the "
         "holes, all parameter relations m=n / gcd>1 / coprime / parities / equal-different bases / base 1 / base e, "
+        "every (parent, child, argument position) pair of the 13 non-leaf constructors with sign-varied holes, "
         "generated positions inside n-ary nodes and inside generated contexts, pairs of interacting redexes), random "
         "trees/DAGs, raw symbolic partials of random trees (forward and reverse), and 300-900 node inputs that exhaust "
         "the 1000-step budget.  The harness drives _take_reduction_step itself and checks EVERY step e_k -> e_k+1, the "
@@ -58,7 +60,7 @@ def compare(prev, cur):
     return None
 
 
-def check_models(stats, a, b, ctxs, rat_points, case, what, m0, allow_kf1_redex=True):
+def check_models(stats, a, b, ctxs, rat_points, case, what, m0, allow_kf1_redex=True, fired=None):
     """One rewrite a -> b (models) at all points.  Raises Violation unless it is the listed finding."""
     path, ra, rb = T.diff(a, b)
     changed = ra is not rb and M.canon(ra) != M.canon(rb)
@@ -81,7 +83,10 @@ def check_models(stats, a, b, ctxs, rat_points, case, what, m0, allow_kf1_redex=
             raise violation(ID, what, f"{what}:{sig}", c2,
                             f"{what} of {M.text(m0)[:200]}: rewrite {M.text(ra)[:200]}  =>  {M.text(rb)[:200]} at "
                             f"{M.point_text(env)}: {msg}")
-    if rat_points and not kf1 and RE.is_rational_fragment(a) and RE.is_rational_fragment(b) \
+    # exact identity is demanded of purely structural rewrites only: constant folding and constant
+    # consolidation do double arithmetic, whose rounding the property explicitly allows
+    structural = bool(fired) and not any("consolidating_constants" in f for f in fired)
+    if rat_points and not kf1 and structural and RE.is_rational_fragment(a) and RE.is_rational_fragment(b) \
             and constants_exact(a) and constants_exact(b):
         for rp in rat_points:
             try:
@@ -113,11 +118,12 @@ def end_to_end_failure(m, envs, via):
         return f"_normalize() gave {out!r}"
     nm = to_model(out.value)
     for env in envs:
-        r0, _ = RE.evaluate(m, env)
+        r0, _ = RE.evaluate(m, env, keep_eps=True)
         if r0.st != RE.DEFINED:
             continue
+        r1n, _ = RE.evaluate(nm, env, keep_eps=True)
         r1, _ = RE.evaluate(nm, env)
-        msg = compare(r0, r1)
+        msg = compare(r0, r1n)
         if msg not in (None, "skip"):
             return f"_normalize() = {M.text(nm)[:200]} at {M.point_text(env)}: {msg}"
         if msg is None:
@@ -155,13 +161,14 @@ def check(stats, m, envs, rat_points=None, template=None, sub="steps", limit=150
     stats.count("steps", tr.steps)
     if not tr.reduced:
         stats.count("not-reduced-within-limit")
-    ctxs = [(env, RE.RefEval(env)) for env in envs]
+    ctxs = [(env, RE.RefEval(env, keep_eps=True)) for env in envs]
     m0 = tr.models[0]
     fired = 0
     for i in range(1, len(tr.models)):
         if tr.models[i] is tr.models[i - 1]:
             continue
-        if check_models(stats, tr.models[i - 1], tr.models[i], ctxs, rat_points, case, "step", m0):
+        if check_models(stats, tr.models[i - 1], tr.models[i], ctxs, rat_points, case, "step", m0,
+                        fired=tr.fired[i - 1] if i - 1 < len(tr.fired) else None):
             fired += 1
     if tr.final_model is not None:
         if check_models(stats, tr.models[-1], tr.final_model, ctxs, rat_points, case, "normal-form", m0, allow_kf1_redex=False):
@@ -189,6 +196,77 @@ def make_redex(stats):
         envs = draw_points(data, names)
         rat = [{n: data.draw(rationals()) for n in names} for _ in range(4)] if RE.is_rational_fragment(m) else None
         check(stats, m, envs, rat, template=template, sub="redex")
+    return test
+
+
+PAIR_SHAPES = None
+
+
+def pair_shapes():
+    """Every (parent, child) pair of constructors, with the child in every argument position."""
+    global PAIR_SHAPES
+    if PAIR_SHAPES is None:
+        tags = list(M.ALL_TAGS[2:])
+        out = []
+        for p in tags:
+            for c in tags:
+                npos = 2 if (p in M.BINARY or p in M.NARY) else 1
+                for pos in range(npos):
+                    out.append((p, c, pos))
+        PAIR_SHAPES = out
+    return PAIR_SHAPES
+
+
+@st.composite
+def pairs(draw, names):
+    """parent(child(holes...)) for a drawn constructor pair; holes are small sign-varied terms.  A NEW rewrite
+    rule necessarily has some constructor pair as its left-hand side: this family covers them all."""
+    p, c, pos = draw(st.sampled_from(pair_shapes()))
+
+    def hole():
+        k = draw(st.integers(0, 7))
+        v = ("Variable", draw(st.sampled_from(names)))
+        if k <= 2:
+            return v
+        if k == 3:
+            return ("Negation", v)
+        if k == 4:
+            return ("Constant", draw(st.sampled_from([2, -2, 0.5, 3, -1, 1.5, 4, -0.5])))
+        return draw(S.trees(names, depth=1, const_bias=2))
+
+    def node(t, kids):
+        if t in M.UNARY:
+            return (t, kids[0])
+        if t in M.PARAM_N:
+            return (t, kids[0], draw(st.sampled_from([1, 2, 3, 4, 5, 6, 2.0])))
+        if t == "Exponential":
+            return (t, kids[0], draw(st.sampled_from(RX.BASES + [1])))
+        if t == "Logarithm":
+            return (t, kids[0], draw(st.sampled_from(RX.BASES)))
+        if t in M.BINARY:
+            return (t, kids[0], kids[1])
+        extra = [hole() for _ in range(draw(st.integers(0, 2)))]
+        return (t, tuple(kids + extra))
+    child = node(c, [hole(), hole()])
+    kids = [hole(), hole()]
+    kids[pos if (p in M.BINARY or p in M.NARY) else 0] = child
+    m = node(p, kids)
+    if draw(st.integers(0, 3)) == 0:
+        m = node(draw(st.sampled_from(list(M.ALL_TAGS[2:]))), [m, hole()])
+    return f"{p}({c})", m
+
+
+def make_pairs(stats):
+    @given(st.data())
+    def test(data):
+        names = data.draw(S.name_lists(1, 2))
+        label, m = data.draw(pairs(names))
+        stats.count("pair:" + label)
+        p0 = data.draw(S.exact_points(names))
+        # both signs of every variable are always among the points
+        envs = [p0, {k: -v for k, v in p0.items()}, data.draw(S.exact_points(names)), data.draw(S.points(names, extra=False))]
+        rat = [{n: data.draw(rationals()) for n in names} for _ in range(4)] if RE.is_rational_fragment(m) else None
+        check(stats, m, envs, rat, sub="pairs")
     return test
 
 
@@ -284,9 +362,15 @@ def make_big(stats):
 def parts(tier):
     n = 6000 if tier == "quick" else 120000
     big = 160 if tier == "quick" else 3200
-    return [hyp_part("redex", make_redex, int(n * 0.5)), hyp_part("random", make_random, int(n * 0.15)),
-            hyp_part("rational", make_rational, int(n * 0.15)), hyp_part("partials", make_partials, int(n * 0.2)),
-            hyp_part("big", make_big, big)]
+    ps = [hyp_part("redex", make_redex, int(n * 0.4)), hyp_part("pairs", make_pairs, int(n * 0.5)),
+          hyp_part("random", make_random, int(n * 0.1)),
+          hyp_part("rational", make_rational, int(n * 0.15)), hyp_part("partials", make_partials, int(n * 0.2)),
+          hyp_part("big", make_big, big)]
+    fz = int(os.environ.get("VERIF_FUZZ_RUNS", "0" if tier == "quick" else "320000"))
+    if fz:
+        ps.append(fuzz_part("fuzz-redex", ID, "make_redex", fz // 2))
+        ps.append(fuzz_part("fuzz-random", ID, "make_random", fz // 2))
+    return ps
 
 
 def replay(case):
